@@ -76,8 +76,7 @@ def cells_desc(c, model):
     return {
         "source": c.formula.source if c.formula is not None else None,
         "parameters": list(c.parameters),
-        # allow_none of a derived copy is not propagated when the definer's changes later (C03 scope note)
-        "allow_none": c.allow_none if not c._is_derived() else "<derived>",
+        "allow_none": c.allow_none,
         "is_cached": c.is_cached,
         "doc": c.doc,
         "derived": c._is_derived(),
